@@ -1038,6 +1038,17 @@ class Engine:
         stats = dict(by_op=collections.Counter(), len_hist=collections.Counter())
         corpus = corpus_lines()
         lines = corpus + self.pd.cases(g, self.tier, self.helper)
+        if self.tier == 'thorough':
+            # further batches of the random streams under derived seeds (the fixed sweeps repeat; duplicates are
+            # dropped): VERIF_THOROUGH_BATCHES, default 4
+            seen = set(lines)
+            for k in range(1, int(os.environ.get('VERIF_THOROUGH_BATCHES', '4'))):
+                gk = G(self.seed * 1000003 + k)
+                gk.in_compound = False
+                for l in self.pd.cases(gk, self.tier, self.helper):
+                    if l not in seen:
+                        seen.add(l)
+                        lines.append(l)
         ev = self.evaluate(lines, stats)
         self.impl_only_known(ev)
         total_probes = self.impl_probes(ev)
